@@ -319,6 +319,14 @@ func collectRaces(work string) []raceReport {
 			}
 			sort.Strings(tops)
 			key := "race:" + strings.Join(tops, "|")
+			// both accesses inside one third-party module (no wasp frame on top of either
+			// stack): one finding per module, whatever pair of its functions shows up
+			if len(tops) == 2 {
+				m0, m1 := modOf(tops[0]), modOf(tops[1])
+				if m0 != "" && m0 == m1 && !strings.HasPrefix(m0, "github.com/vx-labs/wasp") && m0 != "wv" {
+					key = "race:dependency:" + m0
+				}
+			}
 			r := byKey[key]
 			if r == nil {
 				txt := b
@@ -341,6 +349,22 @@ func collectRaces(work string) []raceReport {
 		out = append(out, *byKey[k])
 	}
 	return out
+}
+
+// modOf returns the import path of the package a function belongs to, cut to
+// the module-looking prefix (host/org/repo).
+func modOf(fn string) string {
+	slash := strings.LastIndex(fn, "/")
+	dot := strings.Index(fn[slash+1:], ".")
+	if dot < 0 {
+		return ""
+	}
+	pkg := fn[:slash+1+dot]
+	parts := strings.Split(pkg, "/")
+	if len(parts) >= 3 && strings.Contains(parts[0], ".") {
+		return strings.Join(parts[:3], "/")
+	}
+	return pkg
 }
 
 func replay(path string) int {
